@@ -1804,6 +1804,46 @@ func writeDecisions(path string, p *pkgInfo) {
 			return true
 		})
 	}
+	// NodeController.Close: the cases of the type switch inside its loop, in order, with what each one does
+	var closeCases []string
+	if fd := p.funcs["NodeController.Close"]; fd != nil {
+		ast.Inspect(fd.Body, func(n ast.Node) bool {
+			ts, ok := n.(*ast.TypeSwitchStmt)
+			if !ok {
+				return true
+			}
+			for _, c := range ts.Body.List {
+				cc := c.(*ast.CaseClause)
+				name := "default"
+				if len(cc.List) == 1 {
+					name = types.ExprString(cc.List[0])
+				} else if len(cc.List) > 1 {
+					name = "several"
+				}
+				act := "other"
+				if len(cc.Body) == 1 {
+					switch st := cc.Body[0].(type) {
+					case *ast.ReturnStmt:
+						if len(st.Results) == 1 {
+							r := types.ExprString(st.Results[0])
+							if r == "nil" {
+								act = "stop"
+							} else if strings.HasSuffix(r, ".Close(ctx)") {
+								act = "close"
+							}
+						}
+					case *ast.AssignStmt:
+						if len(st.Lhs) == 1 && len(st.Rhs) == 1 && st.Tok == token.ASSIGN && types.ExprString(st.Lhs[0]) == "n" && strings.HasSuffix(types.ExprString(st.Rhs[0]), ".Unwrap()") {
+							act = "unwrap"
+						}
+					}
+				}
+				closeCases = append(closeCases, fmt.Sprintf("(%q, %q)", name, act))
+			}
+			return false
+		})
+	}
+	sb.WriteString("/-- `NodeController.Close`: the cases of the type switch in its loop, in order, and what each does (close: return the node's own Close; unwrap: carry on with the node inside; stop: return nil) -/\ndef closeSwitch : List (String × String) := [" + strings.Join(closeCases, ", ") + "]\n\n")
 	sb.WriteString("/-- `FileSink.rotate`: the functions of package os it calls itself, in source order (what it does to the directory besides closing, pruning and opening) -/\ndef rotateOsCalls : List String := [" + strings.Join(osCalls, ", ") + "]\n\nend Evl.Generated\n")
 	os.WriteFile(path, []byte(sb.String()), 0o644)
 }
